@@ -47,6 +47,14 @@ def one_run(ctx, launch, uros, msgs, rng, k):
     r = np.tan(ang / 4) * ax
     b = rng.uniform(0.03, 0.1, 3) * rng.choice([-1.0, 1.0], 3)
     init = bool(rng.integers(0, 2))
+    if not init and rng.random() < 0.5:
+        # directed: estimator started at zero while the true heading is far (100..180 deg) from zero
+        psi = rng.choice([-1.0, 1.0]) * rng.uniform(np.deg2rad(100), PI)
+        tilt = O.random_axes(rng, 1)[0] * rng.uniform(0, 0.5)
+        q = O.R_to_quat((O.Rz(np.array(psi)) @ O.rodrigues(tilt[None, :])[0])[None])[0]
+        q = q if q[0] >= 0 else -q
+        r = q[1:] / (1 + q[0])
+        ang = 2 * np.arccos(min(1.0, q[0]))
     incl, decl = rng.uniform(-1.0, 1.0), rng.uniform(-0.4, 0.4)
     P = {"sim/enable_noise": False, "sim/mag_incl": incl, "sim/mag_decl": decl, "mrp/mag_decl": decl,
          "sim/dt_sim": float(rng.choice([1 / 800, 1 / 400])), "sim/dt_imu": float(rng.choice([1 / 400, 1 / 250, 1 / 200])),
